@@ -193,6 +193,11 @@ def run(tier, seed):
     # finished: shutdown stage 3): the collector must still be told to terminate
     add("evaluation error in the final audit round", e2e_play(scene_x="slow12", extra_actions="  :slow12 sleep 1.2",
         audience="audience\n  judge audits throughout\n  judge computes y as t > 0.9 ? sqrt(mood) : 0\n  judge watches y\nend\n"), 10, 2, expect_fail=True, body_err=True)
+    # every spotlight fails at once while the prompter still has mood changes to announce (the conductor is held back
+    # before it looks at the components' results): the play must end with the spotlight's failure, not crash
+    add("the only spotlight fails while the prompter still announces mood changes",
+        e2e_play(scene_x="quick", spot="exit 1").replace("  scene z entails for a: quick", "  scene z entails for a: quick\n  scene z mood starts blue\n  scene x mood starts red"),
+        10, 2, expect_fail=True, body_err=True, points="conduct.stage1=sleep:1s")
     for _ in range(3 if tier == "quick" else 12):
         add("spotlight ignoring SIGHUP", e2e_play(scene_x="quick", spot="trap '' HUP; sleep 100"), 8, 2, expect_fail=None)
     add("spotlight with children", e2e_play(scene_x="quick", spot="sleep 100 & sleep 100 & wait"), 8, 2)
